@@ -54,11 +54,12 @@ fi
 sed -i "s#/repo/palette#$wt/palette#" "$wt/.sim/Cargo.toml"
 cp /verif/known_findings.json "$wt/.vd/"
 start=$(date +%s)
-if ! (cd "$wt/.sim" && cargo build --release --offline >"$wt/.vd/build.log" 2>&1); then
+world="$(echo "$prop" | tr 'A-Z' 'a-z')"
+if ! (cd "$wt/.sim" && cargo build --release --offline -p palsim --bin "palsim-$world" --no-default-features --features "$world" >"$wt/.vd/build.log" 2>&1); then
   echo "scratch: lane=$lane property=$prop change=$change exit=2 :: harness does not build: $(grep -m1 -E '^error' "$wt/.vd/build.log")"
   exit 2
 fi
-out=$(VERIF_DIR="$wt/.vd" "$wt/.sim/target/release/palsim" run "$prop" --tier quick --evidence "$wt/.vd/ev.json" "$@" 2>&1); code=$?
+out=$(VERIF_DIR="$wt/.vd" "$wt/.sim/target/release/palsim-$world" run "$prop" --tier quick --evidence "$wt/.vd/ev.json" "$@" 2>&1); code=$?
 end=$(date +%s)
 first=$(echo "$out" | grep -E "^(violation at|  detail|palsim: harness)" | head -2 | tr '\n' ' ' | cut -c1-420)
 echo "scratch: lane=$lane property=$prop change=$change exit=$code seconds=$((end-start)) :: $first"
